@@ -81,6 +81,25 @@ class Unit:
         return "\n".join(t for _, t in self.parts)
 
 
+def _assume_imported_lemmas(text):
+    """`proof fn` items of an imported unit's own prelude become external_body (statement kept, proof not repeated).
+    Canaries and #[via_fn] termination proofs are left alone."""
+    clean = _strip_tokens(text)
+    out, last = [], 0
+    for m in re.finditer(r"^[ \t]*(?:pub[ \t]+)?(?:broadcast[ \t]+)?proof[ \t]+fn[ \t]+([A-Za-z0-9_]+)", clean, re.M):
+        name = m.group(1)
+        if name.startswith("canary_"):
+            continue
+        pre = clean[max(0, m.start() - 40):m.start()]
+        if "via_fn" in pre:
+            continue
+        out.append(text[last:m.start()])
+        out.append("#[verifier::external_body] // proved in the unit this prelude was imported from\n")
+        last = m.start()
+    out.append(text[last:])
+    return "".join(out)
+
+
 def parse_vspec(path):
     u = Unit(os.path.basename(path)[:-6])
     u.path = path
@@ -146,7 +165,8 @@ def parse_vspec(path):
                         if x not in u.uses:
                             u.uses.append(x)
                     for k, t in other.parts:
-                        u.add_part(k, t)
+                        # lemmas of an imported unit are proved there; here only their statements are used
+                        u.add_part(k, _assume_imported_lemmas(t) if k.startswith("own:") else t)
                     for it in other.items:
                         if any(j["file"] == it["file"] and j["name"] == it["name"] and j["impl"] == it["impl"] for j in u.items):
                             continue
